@@ -56,7 +56,27 @@ def tree_workload(rng, n_ops, mon):
             try:
                 with warnings.catch_warnings():
                     warnings.simplefilter("ignore")
-                    if r < 0.012:
+                    if r < 0.006 and exs:
+                        # a matrix of expressions handed to PSDMatrix as a numpy array with python scalars in it: building the LMI is
+                        # an operation too - it must not alter its operand, and must denote the entries as written
+                        from PEPit import PSDMatrix
+                        n_ = rng.randint(1, 3)
+                        arr = np.empty((n_, n_), dtype=object)
+                        for i_ in range(n_):
+                            for j_ in range(n_):
+                                arr[i_, j_] = rng.choice(exs) if rng.random() < 0.6 else rng.choice([1.0, 0, 2, -0.5])
+                        before = [(id(arr[i_, j_]), arr[i_, j_] if isinstance(arr[i_, j_], (int, float)) else None) for i_ in range(n_) for j_ in range(n_)]
+                        want = [mon.den(arr[i_, j_]) for i_ in range(n_) for j_ in range(n_)]
+                        Mx = PSDMatrix(arr)
+                        after = [(id(arr[i_, j_]), arr[i_, j_] if isinstance(arr[i_, j_], (int, float)) else None) for i_ in range(n_) for j_ in range(n_)]
+                        mon.count += 1
+                        mon.by_op["psd_matrix_construction"] = mon.by_op.get("psd_matrix_construction", 0) + 1
+                        if before != after:
+                            mon._viol("operand_mutated:PSDMatrix", "building a PSDMatrix rewrote entries of the array it was given", "PSDMatrix", arr[0, 0], None)
+                        got = [mon.den(Mx[i_, j_]) for i_ in range(n_) for j_ in range(n_)]
+                        if any(abs(g_ - w_) > 1e-9 * (1 + abs(w_)) for g_, w_ in zip(got, want) if np.isfinite(g_) and np.isfinite(w_)):
+                            mon._viol("wrong_denotation:PSDMatrix", "entries of a PSDMatrix do not denote the entries it was given", "PSDMatrix", arr[0, 0], None)
+                    elif r < 0.012:
                         # the documented constructor: a combination given by its decomposition, zero weights included
                         leaves = [p_ for p_ in pts if p_.get_is_leaf()] or pts[:1]
                         dd = {}
